@@ -696,10 +696,11 @@ def expand_additional_doses(model: Model, flag: bool = False):
         a['_EXPANDED'] = expanded
         return a
 
+    dtypes = {col: dtype for col, dtype in df.dtypes.items() if col != idv}
     df = df.apply(fn, axis=1)
     df = df.apply(lambda x: x.explode() if x.name in ['_TIMES', '_EXPANDED'] else x)
-    df = df.astype({'_EXPANDED': np.bool_})
-    df = df.groupby([idcol, '_RESETGROUP'], group_keys=False)[df.columns].apply(
+    df = df.astype({'_EXPANDED': np.bool_, **dtypes})  # Row-wise apply upcasts to a common dtype
+    df = df.groupby([idcol, '_RESETGROUP'], group_keys=False, sort=False)[df.columns].apply(
         lambda x: x.sort_values(by='_TIMES', kind='stable')
     )
     df[idv] = df['_TIMES'].astype(np.float64)
@@ -1111,6 +1112,7 @@ def add_time_after_dose(model: Model):
     idlab = temp.datainfo.id_column.name
     df = model.dataset.copy()
     df['_NEWTIME'] = temp.dataset[idv]
+    df['_ORDER'] = np.arange(len(df))
 
     try:
         addl = temp.datainfo.typeix['additional'][0].name
@@ -1138,7 +1140,7 @@ def add_time_after_dose(model: Model):
 
     # Sort in case DOSEIDs are non-increasing
     df = (
-        df.groupby(idlab)[df.columns]
+        df.groupby(idlab, sort=False)[df.columns]
         .apply(lambda x: x.sort_values(by=['_DOSEID'], kind='stable', ignore_index=True))
         .reset_index(drop=True)
     )
@@ -1148,10 +1150,12 @@ def add_time_after_dose(model: Model):
     df['TAD'] = df.groupby(groups)['TAD'].cumsum()
 
     if addl:
-        df = df[~df['EXPANDED']].reset_index(drop=True)
-        df.drop(columns=['EXPANDED'], inplace=True)
+        df = df[~df['EXPANDED']]
+        df = df.drop(columns=['EXPANDED'])
 
-    df.drop(columns=['_NEWTIME', '_DOSEID', '_RESETGROUP'], inplace=True)
+    # Restore the order of the records
+    df = df.sort_values(by='_ORDER', kind='stable').reset_index(drop=True)
+    df.drop(columns=['_NEWTIME', '_DOSEID', '_RESETGROUP', '_ORDER'], inplace=True)
 
     # FIXME: Temp workaround, should be canonicalized in Model.replace
     di = update_datainfo(model.datainfo, df)
